@@ -2,7 +2,6 @@ package main
 
 import (
 	"fmt"
-	"sort"
 	"strconv"
 	"strings"
 )
@@ -42,9 +41,7 @@ func (m *impl) Exec(line string) string {
 		if m.cur.status != "ok" {
 			return m.cur.status
 		}
-		names := append([]string{}, d.Sorters()...)
-		sort.Strings(names)
-		return strings.Join(append([]string{"ok"}, names...), " ")
+		return strings.Join(append([]string{"ok"}, m.cur.names...), " ")
 	}
 	if len(ws) < 3 {
 		return "bad-op"
